@@ -297,6 +297,7 @@ func (H) Execute(scAny any, cfg simrt.Config, st *core.Stats) (*simrt.Outcome, *
 					simrt.Close(ch)
 				case "cancel":
 					cancelAt = simrt.Stamp()
+					simrt.Count("fault.ctx_cancel", 1)
 					ctx.err.Store(context.Canceled)
 					simrt.Close(ctx.done)
 				}
